@@ -161,6 +161,9 @@ theorem parseLoop_shape : ∀ (fuel : Nat) (rest : Str) (pos : Nat) (prio : Int)
             · simp only [h40, Bool.false_eq_true, if_false]
               by_cases h41 : (ch == 41) = true
               · simp only [h41, if_true]
+                by_cases hneg : prio - 10 < 0
+                · simp only [hneg, if_true]; exact good_math _
+                simp only [hneg, if_false]
                 by_cases hN : has expected NullaryCall = true
                 · simp only [hN, if_true]
                   have hst : st = false := by
